@@ -373,7 +373,7 @@ pub fn run(a: RunArgs) -> i32 {
         match std::env::var("VF_FUZZ_BIN") {
             Ok(p) if Path::new(&p).exists() => {
                 let runs = std::env::var("VF_FUZZ_RUNS").ok().and_then(|s| s.parse().ok()).unwrap_or_else(|| check.fuzz_runs());
-                let out = super::fuzzstage::run(&id, Path::new(&p), a.seed, check.workers().min(16), runs, check.max_len(), 2400);
+                let out = super::fuzzstage::run(&id, Path::new(&p), a.seed, check.workers().min(16), runs, check.max_len(), 900);
                 merged.engines.push(format!(
                     "libFuzzer stage: {} executions over {} processes ({} runs each, ASan, max_len {})",
                     out.runs,
